@@ -179,6 +179,8 @@ fn main() {
         "c04e2e" => c03::run("c04e2e", &args),
         #[cfg(feature = "c03")]
         "c04adv" => c03::run_adv(&args),
+        #[cfg(feature = "c03")]
+        "c03adv" => c03::run_adv_shared(&args),
         #[cfg(feature = "c19")]
         "c19e2e" => c19::run("c19e2e", &args),
         #[cfg(feature = "c19")]
